@@ -855,6 +855,11 @@ class Executor:
         if z3.is_false(c):
             st.choices.append(False)
             return False
+        memo = st.data.get(('dec', c.get_id()))
+        if memo is not None:
+            # the same condition was decided earlier on this path (the path condition only grows)
+            st.choices.append(memo)
+            return memo
         if self.no_prune:
             # over-approximate exploration: both branches are followed without asking the solver (the caller
             # decides feasibility of the paths it cares about)
@@ -876,6 +881,8 @@ class Executor:
             r2, m2 = self.check(pcs + [z3.Not(c)])
             if r2 == 'unsat':
                 st.choices.append(True)
+                st.data[('dec', c.get_id())] = True
+                self.keep.append(c)
                 return True
             self._fork_models = (st.model, m2)
             raise ForkRequest(c)
@@ -883,16 +890,22 @@ class Executor:
             r1, m1 = self.check(pcs + [c])
             if r1 == 'unsat':
                 st.choices.append(False)
+                st.data[('dec', c.get_id())] = False
+                self.keep.append(c)
                 return False
             self._fork_models = (m1, st.model)
             raise ForkRequest(c)
         r1, m1 = self.check(pcs + [c])
         if r1 == 'unsat':
             st.choices.append(False)
+            st.data[('dec', c.get_id())] = False
+            self.keep.append(c)
             return False
         r2, m2 = self.check(pcs + [z3.Not(c)])
         if r2 == 'unsat':
             st.choices.append(True)
+            st.data[('dec', c.get_id())] = True
+            self.keep.append(c)
             if m1 is not None:
                 st.model = m1
             return True
@@ -1607,6 +1620,9 @@ class Executor:
                         raise PathEnd('unwind', self.where(st))
                 m1, m2 = self._fork_models
                 s2 = st.fork()
+                st.data[('dec', f.cond.get_id())] = True
+                s2.data[('dec', f.cond.get_id())] = False
+                self.keep.append(f.cond)
                 st.choices = st.choices + [True]
                 st.pc.append(f.cond)
                 st.model = m1
